@@ -106,14 +106,30 @@ def discharge(world, obligations, timeout_ms=10000, jobs=None, use_fallbacks=Tru
 
 
 def model_of(world, ob, timeout_ms=20000):
-    """re-solve a refuted obligation in-process to obtain a z3 model."""
-    s = z3.Solver()
-    s.set('timeout', timeout_ms)
-    for a in list(world.axioms) + list(ob.axioms):
-        s.add(a)
-    for c in ob.pc:
-        s.add(c)
-    s.add(z3.Not(ob.goal))
-    if s.check() == z3.sat:
-        return s.model()
+    """re-solve a refuted obligation in-process to obtain a z3 model; small models are tried first
+    (lengths and integers bounded by 4, 12, 40) so that counter-examples are readable."""
+    ints = []
+    for entry in ob.vars.values():
+        kind = entry[0]
+        if kind in ('arrstr', 'arrlist'):
+            ints.append(entry[2])
+        elif kind in ('term',) and z3.is_int(entry[1]):
+            ints.append(entry[1])
+        elif kind == 'term' and z3.is_string(entry[1]):
+            ints.append(z3.Length(entry[1]))
+        elif kind == 'term' and z3.is_seq(entry[1]):
+            ints.append(z3.Length(entry[1]))
+    for bound in (4, 12, 40, None):
+        s = z3.Solver()
+        s.set('timeout', timeout_ms)
+        for a in list(world.axioms) + list(ob.axioms):
+            s.add(a)
+        for c in ob.pc:
+            s.add(c)
+        s.add(z3.Not(ob.goal))
+        if bound is not None:
+            for t in ints:
+                s.add(t <= bound, t >= -bound)
+        if s.check() == z3.sat:
+            return s.model()
     return None
